@@ -52,22 +52,34 @@ def normal_maps(g, space):
     return N
 
 
-def rwg_maps(g, space, nk, snc=False):
-    """R_c (3NE x ndof): component c of the (S)RWG basis at the three element nodes; D (NE x ndof): divergence."""
+def rwg_maps(g, space, nk=None, snc=False):
+    """R_c (3NE x ndof): component c of the RWG function attached to every dof of `space` (an RWG space, or an SNC
+    space whose functions are n x RWG: the electric-field operator tests with the underlying RWG functions) at the
+    three element nodes; D (NE x ndof): its surface divergence.  Written from the definition
+    f_i = m_i * l_i * (J phi_i) / ie,  div f_i = 2 m_i l_i / ie  (phi_0=(x,y-1), phi_1=(x-1,y), phi_2=(x,y))."""
     gd = g.data()
     NE = g.number_of_elements
-    nodes = lift_arr(np.array([[0, 1, 0], [0, 0, 1.0]]))
+    nodes = [(F(0), F(0)), (F(1), F(0)), (F(0), F(1))]
+    ref = [lambda x, y: (x, y - 1), lambda x, y: (x - 1, y), lambda x, y: (x, y)]
     R = [lift_arr(np.zeros((3 * NE, space.global_dof_count))) for _ in range(3)]
     D = lift_arr(np.zeros((NE, space.global_dof_count)))
-    el_len = nk.get_edge_lengths(gd, np.arange(NE))
+    pairs = [(0, 1), (2, 0), (1, 2)]
     for el in np.flatnonzero(space.support):
-        vals = space.evaluate(el, nodes)  # (3, nshape, 3 nodes)
+        v = [gd.vertices[:, int(gd.elements[i, el])] for i in range(3)]
+        L = []
+        for a, b_ in pairs:
+            d = v[a] - v[b_]
+            L.append((d[0] * d[0] + d[1] * d[1] + d[2] * d[2]).sqrt())
+        J = gd.jacobians[el]
+        ie = gd.integration_elements[el]
         for i in range(3):
             j = int(space.local2global[el, i])
-            for a in range(3):
+            m = space.local_multipliers[el, i]
+            for a, (x, y) in enumerate(nodes):
+                p = ref[i](x, y)
                 for c in range(3):
-                    R[c][3 * el + a, j] = R[c][3 * el + a, j] + vals[c, i, a]
-            D[el, j] = D[el, j] + space.local_multipliers[el, i] * 2 * el_len[el, i] / gd.integration_elements[el]
+                    R[c][3 * el + a, j] = R[c][3 * el + a, j] + (J[c, 0] * p[0] + J[c, 1] * p[1]) * L[i] * m / ie
+            D[el, j] = D[el, j] + m * 2 * L[i] / ie
     return R, D
 
 
@@ -172,10 +184,12 @@ def run(ctx):
             ctx.concrete("rowsum/" + mesh, "rowsum", {"mesh": mesh})
 
     # ---- EFIE decomposition
-    efie_cfgs = [("T7", {"include_boundary_dofs": True}, 2, 1)]
+    # (mesh, trial (RWG) options, test (SNC) options, regular order, singular order): test and trial spaces are chosen
+    # independently so that their multiplier / dof layouts differ on pairs handled by the regular AND the singular part
+    efie_cfgs = [("T7", {"include_boundary_dofs": True}, {}, 2, 1)]
     if thorough:
-        efie_cfgs += [("T4", {}, 2, 2), ("T9", seg([1, 2], include_boundary_dofs=True), 1, 1)]
-    for ci, (mesh, kw, oreg, osing) in enumerate(efie_cfgs):
+        efie_cfgs += [("T4", {}, {}, 2, 2), ("T9", seg([1, 2], include_boundary_dofs=True), {"include_boundary_dofs": True}, 1, 1), ("T7", seg([0, 2]), {"include_boundary_dofs": True}, 1, 1)]
+    for ci, (mesh, kw, kwt, oreg, osing) in enumerate(efie_cfgs):
         t0 = time.time()
         ABS.reset()
         g = W.symgrid(mesh, tag="e%d" % ci)
@@ -185,7 +199,7 @@ def run(ctx):
         def build():
             with W.patched(*W.install_uf(["helmholtz_single_layer"], uf)):
                 rwg = b.function_space(g, "RWG", 0, **kw)
-                snc = b.function_space(g, "SNC", 0, **kw)
+                snc = b.function_space(g, "SNC", 0, **kwt)
                 dp0 = b.function_space(g, "DP", 0)
                 dp1 = b.function_space(g, "DP", 1)
                 E = L.maxwell.electric_field(rwg, rwg, snc, K).weak_form().to_dense()
@@ -200,16 +214,16 @@ def run(ctx):
             if exc is not None:
                 raise exc
             rwg, snc, E, V0, V1 = out
-            Rd, Dd = rwg_maps(g, rwg, nk)
-            # the test functions of the electric field operator are the SNC functions rotated back: n x snc = rwg
-            Rt, Dt = rwg_maps(g, rwg, nk)
+            Rd, Dd = rwg_maps(g, rwg)
+            # the test functions of the electric field operator are the RWG functions underlying the SNC test space
+            Rt, Dt = rwg_maps(g, snc)
             ik = SC(ZERO, SR.const(1)) * K
             spec = None
             for c in range(3):
                 t = Rt[c].T @ V1 @ Rd[c]
                 spec = t if spec is None else spec + t
             spec = spec * (-ik) - (Dt.T @ V0 @ Dd) * (SC(SR.const(1), ZERO) / ik)
-            params = {"mesh": mesh, "kw": kw, "regular": oreg, "singular": osing}
+            params = {"mesh": mesh, "kw": kw, "kw_test": kwt, "regular": oreg, "singular": osing}
             n = 0
             for idx, f in W.entries_eq(E, spec):
                 ctx.prove("efie%d/%s/%d_%d" % (ci, mesh, idx[0], idx[1]), f, list(pc), family="efie_decomp", params=params, abs_cons=False, group="efie%d-%s" % (ci, mesh))
@@ -303,7 +317,7 @@ def concrete(family, params):
         k = 1.3 + 0.4j
         kw = params.get("kw", {"include_boundary_dofs": True})
         rwg = b.function_space(g, "RWG", 0, **kw)
-        snc = b.function_space(g, "SNC", 0, **kw)
+        snc = b.function_space(g, "SNC", 0, **params.get("kw_test", kw))
         E = L.maxwell.electric_field(rwg, rwg, snc, k).weak_form().to_dense()
         if family == "efie_sym":
             comp = np.zeros(rwg.global_dof_count, dtype=int)
@@ -319,19 +333,28 @@ def concrete(family, params):
         V0 = L.helmholtz.single_layer(dp0, dp0, dp0, k).weak_form().to_dense()
         V1 = L.helmholtz.single_layer(dp1, dp1, dp1, k).weak_form().to_dense()
         nodes = np.array([[0, 1, 0], [0, 0, 1.0]])
-        nd = rwg.global_dof_count
-        R = [np.zeros((3 * NE, nd)) for _ in range(3)]
-        D = np.zeros((NE, nd))
-        el_len = nk.get_edge_lengths(gd, np.arange(NE, dtype="uint32"))
-        for el in np.flatnonzero(rwg.support):
-            vals = rwg.evaluate(el, nodes)
-            for i in range(3):
-                j = rwg.local2global[el, i]
-                for a in range(3):
-                    for c in range(3):
-                        R[c][3 * el + a, j] += vals[c, i, a]
-                D[el, j] += rwg.local_multipliers[el, i] * 2 * el_len[el, i] / gd.integration_elements[el]
-        spec = -1j * k * sum(R[c].T @ V1 @ R[c] for c in range(3)) - (1 / (1j * k)) * (D.T @ V0 @ D)
+        ref = [np.array([nodes[0], nodes[1] - 1]), np.array([nodes[0] - 1, nodes[1]]), np.array([nodes[0], nodes[1]])]
+
+        def maps(space):
+            nd = space.global_dof_count
+            R = [np.zeros((3 * NE, nd)) for _ in range(3)]
+            D = np.zeros((NE, nd))
+            for el in np.flatnonzero(space.support):
+                v = [gd.vertices[:, gd.elements[i, el]] for i in range(3)]
+                Ln = [np.linalg.norm(v[0] - v[1]), np.linalg.norm(v[2] - v[0]), np.linalg.norm(v[1] - v[2])]
+                for i in range(3):
+                    j = space.local2global[el, i]
+                    m = space.local_multipliers[el, i]
+                    vals = gd.jacobians[el] @ ref[i] * Ln[i] * m / gd.integration_elements[el]
+                    for a in range(3):
+                        for c in range(3):
+                            R[c][3 * el + a, j] += vals[c, a]
+                    D[el, j] += m * 2 * Ln[i] / gd.integration_elements[el]
+            return R, D
+
+        Rd, Dd = maps(rwg)
+        Rt, Dt = maps(snc)
+        spec = -1j * k * sum(Rt[c].T @ V1 @ Rd[c] for c in range(3)) - (1 / (1j * k)) * (Dt.T @ V0 @ Dd)
         gap = float(np.max(np.abs(E - spec)) / np.max(np.abs(spec)))
         return {"gap": gap if gap > 1e-10 else 0.0, "max_rel_diff": gap, "key": "efie_decomp/%s" % params["mesh"]}
     raise KeyError(family)
